@@ -3004,7 +3004,7 @@ def c14(rep, tier, seed, wd, replay):
     dh = build_harness(wd)
     rng = Rng(seed * 29 + 14)
     scen = dkg.c14_scenarios(rng, tier)
-    res = run_dkg(rep, dh, wd, [(s_[0], s_[4]) for s_ in scen], "dkg-cluster")
+    res = run_dkg(rep, dh, wd, [(s_[0], s_[4]) for s_ in scen], "dkg-cluster", procs=[1, None, 2])
     found = False
     first_bad = None
     jl, jm = [], []
@@ -3032,7 +3032,7 @@ def c14(rep, tier, seed, wd, replay):
             both = set(signed1) & set(signed2)
             if both:
                 rep.violation("instance-signed-both", "one instance released partial signatures for both of two conflicting duties",
-                              {"scenario": tag, "kind": kind, "instances": sorted(both), "lines": lines[:max(i1 + i2) + 1], "pair_lines": [lines[i] for i in i1 + i2]})
+                              {"scenario": tag, "kind": kind, "instances": sorted(both), "lines": lines[:max(i1 + i2) + 1], "pair_lines": [lines[i] for i in i1 + i2], "gomaxprocs": r_.get("gomaxprocs")})
                 found = True
             # combine partial signatures of a duty that reached the threshold
             for idxs, signed in ((i1, signed1), (i2, signed2)):
@@ -3080,11 +3080,11 @@ def c14(rep, tier, seed, wd, replay):
                     continue
                 if v[1] & v[2]:
                     rep.violation("instance-signed-both", "one instance released partial signatures that verify over both of two conflicting duties",
-                                  {"scenario": tag, "kind": kind, "instances": sorted(v[1] & v[2]), "lines": lines[:win[1]], "pair_lines": lines[win[0]:win[1]]})
+                                  {"scenario": tag, "kind": kind, "instances": sorted(v[1] & v[2]), "lines": lines[:win[1]], "pair_lines": lines[win[0]:win[1]], "gomaxprocs": r_.get("gomaxprocs")})
                     found = True
                 elif len(v[1]) >= t and len(v[2]) >= t:
                     rep.violation("both-reach-threshold", "two conflicting duties both collected a threshold of partial signatures (counting what each released signature verifies over)",
-                                  {"scenario": tag, "kind": kind, "signed_first": sorted(v[1]), "signed_second": sorted(v[2]), "lines": lines[:win[1]]})
+                                  {"scenario": tag, "kind": kind, "signed_first": sorted(v[1]), "signed_second": sorted(v[2]), "lines": lines[:win[1]], "gomaxprocs": r_.get("gomaxprocs")})
                     found = True
     out = run_model(jl)
     for meta, o in zip(jm, [x for x in out if x.strip() in ("ok", "BOTH-REACH-THRESHOLD")]):
@@ -3111,7 +3111,7 @@ def c14(rep, tier, seed, wd, replay):
                            json.dumps({"scenario": tag, "lines": ls[-3:], "impl": a[:120], "model": b[:120]}), found))
 
 
-def run_dkg(rep, dh, wd, scen, label):
+def run_dkg(rep, dh, wd, scen, label, procs=None):
     """scen: list of (tag, lines). Returns list of dicts {tag, lines, impl, model, crashed, bad}."""
     from common import run_impl, run_model
     from concurrent.futures import ThreadPoolExecutor
@@ -3123,13 +3123,17 @@ def run_dkg(rep, dh, wd, scen, label):
         lines = []
         for sc in ch:
             lines += sc[-1]
-        impl, crashed, err = run_impl(dh, wd, lines, engine="dkg", timeout=1800)
+        # (procs: the chunks run under these GOMAXPROCS values in turn — util.Scatter hands a worker several entries of a
+        #  batch only when the batch is larger than the processor count)
+        p_ = procs[chunks.index(ch) % len(procs)] if procs else None
+        rep.dist("dkg_gomaxprocs", str(p_ or "default"), len(ch))
+        impl, crashed, err = run_impl(dh, wd, lines, engine="dkg", timeout=1800, env={"GOMAXPROCS": str(p_)} if p_ else None)
         res = []
         pos = 0
         for sc in ch:
             n = len(sc[-1])
             seg = impl[pos:pos + n]
-            res.append({"tag": sc[0], "extra": sc[1:-1], "lines": sc[-1], "impl": seg, "crashed": crashed and len(seg) < n, "err": err if len(seg) < n else ""})
+            res.append({"tag": sc[0], "extra": sc[1:-1], "lines": sc[-1], "impl": seg, "crashed": crashed and len(seg) < n, "err": err if len(seg) < n else "", "gomaxprocs": p_})
             pos += n
             if len(seg) < n:
                 # the process died in this scenario: the remaining scenarios of the chunk did not run
@@ -3628,7 +3632,7 @@ def generic_replay(rep, pid, tier, seed, wd):
     env = {"GOMAXPROCS": str(r["gomaxprocs"])} if r.get("gomaxprocs") else None
     if "lines" in r:                                             # dkg family
         lines = r["lines"]
-        impl, crashed, err = run_impl(dh, wd, lines, engine="dkg", timeout=900)
+        impl, crashed, err = run_impl(dh, wd, lines, engine="dkg", timeout=900, env=env)
         model = run_model(["reset"] + lines)
         rep.cov["replay"] = "dkg engine, %d lines" % len(lines)
         if crashed or len(impl) < len(lines):
